@@ -165,6 +165,7 @@ def run(chk, model_ok=True):
     all_sess = []
     n_req = n_resp = 0
     hist = {}
+    distinct = set()
     for h in range(n_hist):
         peer = sessions.rand_v3_peer(rng, auth=rng.choice([1, 2]), priv=1 + h % 2, discover=(h % 6 == 5))
         s = sessions.Sess(env, peer, rng)
@@ -202,6 +203,7 @@ def run(chk, model_ok=True):
             n_req += 1
             k_ = f"{s.label.split(':')[1]}:{s.label.split(':')[2]}:{s.peer.state.priv_key_type}"
             hist[k_] = hist.get(k_, 0) + 1
+            distinct.add((k_, rec["op"], len(rec["datagrams"][-1])))
             why = check_payload(s.peer.state, rec, rec["datagrams"][-1], texts)
             if why:
                 fail(f"{s.label} request {k} ({rec['op']}): {why}", s.line())
@@ -233,14 +235,14 @@ def run(chk, model_ok=True):
     nl, nd = sessions.model_compare(chk, all_sess, model_ok)
     chk.coverage.update({
         "evaluations": n_req + n_resp + len(st.lines),
-        "distinct_nontrivial": n_req + n_resp,
+        "distinct_nontrivial": len(distinct) + len(set(st.lines)),
         "rule": "every encrypted request of session histories of 10..300 calls (get, get_many with 0..12 OIDs, getnext, "
                 "getbulk, refresh, oversized requests; answered with probability 0 / 0.3 / 0.9, boots/time changing) is decrypted "
                 "with OpenSSL DES-CBC / AES-128-CFB under a key derived independently (RFC 3414 A.2 with the auth digest, "
                 "localized to the engine id in the message; DES key/pre-IV split, IV from the transmitted salt and boots/time) "
                 "and compared octet for octet with the scoped PDU of the call plus < 1 block of padding; agent-encrypted replies "
                 "must be delivered with their exact values. Cipher objects alone: privenc sequences on one key object and "
-                "privdec of OpenSSL-encrypted responses (also truncated ones). All of it replayed on the Lean model (Lean DES/AES).",
+                "privdec of OpenSSL-encrypted responses (also truncated ones). All of it replayed on the Lean model (Lean DES/AES). distinct = distinct (digest, cipher, key type, operation, datagram length) of the session requests + distinct cipher-level request lines.",
         "samples": [{"stream": "privdec", "request": pd[0][:200], "impl": st.impl[len(pe)][:160]}] if pd else [],
         "requests_decrypted": n_req, "responses_delivered": n_resp, "per_configuration": dict(sorted(hist.items())),
         "session_lines": nl, "session_lines_disagreeing": nd, "cipher_level_requests": len(st.lines),
